@@ -2988,6 +2988,40 @@ impl<'a> Parser<'a> {
         })
     }
 
+    /// With the current token just after a `(`: scan the raw tokens up to the matching `)`
+    /// and report `true` only if what follows it is certainly not `=>` or `:`.
+    /// Tokens whose lexing depends on the parser's state (`/`, templates) make the
+    /// answer uncertain (`false`). The lexer position is left unchanged.
+    fn parenthesis_cannot_start_arrow(&mut self) -> bool {
+        let checkpoint = self.lexer.checkpoint();
+        let mut depth = 1usize;
+        let mut kind = self.current.kind.clone();
+        let verdict = loop {
+            match kind {
+                TokenKind::LParen | TokenKind::LBracket | TokenKind::LBrace => depth += 1,
+                TokenKind::RParen | TokenKind::RBracket | TokenKind::RBrace => {
+                    depth -= 1;
+                    if depth == 0 {
+                        let next = self.lexer.next_token().kind;
+                        break !matches!(next, TokenKind::Arrow | TokenKind::Colon);
+                    }
+                }
+                TokenKind::Slash
+                | TokenKind::SlashEq
+                | TokenKind::RegExp(..)
+                | TokenKind::TemplateHead(_)
+                | TokenKind::TemplateMiddle(_)
+                | TokenKind::TemplateTail(_)
+                | TokenKind::TemplateNoSub(_)
+                | TokenKind::Eof => break false,
+                _ => {}
+            }
+            kind = self.lexer.next_token().kind;
+        };
+        self.lexer.restore(checkpoint);
+        verdict
+    }
+
     fn parse_parenthesized_or_arrow(&mut self) -> Result<Expression, JsError> {
         let start = self.current.span;
 
@@ -3003,8 +3037,15 @@ impl<'a> Parser<'a> {
             return self.parse_arrow_function_from_params(vec![], start);
         }
 
-        // Try to parse as arrow function params (with type annotations)
-        if let Ok(params) = self.try_parse_arrow_params() {
+        // Try to parse as arrow function params (with type annotations) - unless a look
+        // ahead to the matching `)` shows that neither `=>` nor a return type follows.
+        // Without this, every level of `(a = (a = (...)))` is parsed twice (once as
+        // parameters with a default, once as an expression): exponential in the depth.
+        if self.parenthesis_cannot_start_arrow() {
+            self.lexer.restore(lexer_checkpoint);
+            self.current = saved_current;
+            self.previous = saved_previous;
+        } else if let Ok(params) = self.try_parse_arrow_params() {
             // Arrow immediately after ) -> definitely arrow function
             if self.check(&TokenKind::Arrow) {
                 return self.parse_arrow_function_from_params(params, start);
